@@ -44,6 +44,12 @@ def slot_code(kind, k, rng):
         return T16(0xF04F0000 | (r << 8) | (0x20 + k), True)       # MOV.W Rk,#imm
     if kind == 'adds32':
         return T16(0xF1100000 | (r << 16) | (r << 8) | 1, True)    # ADDS.W Rk,Rk,#1 (sets flags even inside the block)
+    if kind == 'nop32':
+        return T16(0xF3AF8000, True)                               # NOP.W  (shares its prefix with B<c>.W)
+    if kind == 'msr':
+        return T16(((0xF380 | r) << 16) | 0x8800, True)            # MSR APSR_nzcvq, Rk
+    if kind == 'clrex':
+        return T16(0xF3BF8F2F, True)                               # CLREX
     if kind == 'cmp':
         return T16(0x2800 | (r << 8) | rng.choice((0, 1, 0x80)))   # CMP Rk,#imm : later slots see the new flags
     if kind == 'ldr':
@@ -65,7 +71,7 @@ def slot_code(kind, k, rng):
     raise KeyError(kind)
 
 
-MID = ['movs16', 'adds16', 'lsls16', 'mov32', 'adds32', 'cmp', 'ldr', 'str', 'svc', 'udf', 'ldr_abort']
+MID = ['movs16', 'adds16', 'lsls16', 'mov32', 'adds32', 'cmp', 'ldr', 'str', 'svc', 'udf', 'ldr_abort', 'nop32', 'msr', 'clrex']
 LAST = MID + ['b', 'bx', 'pop_pc']
 
 
@@ -167,7 +173,7 @@ def shard_programs(seed, examples):
         case, n = build_case(rng, ('v6', 'v7', 'v7')[ci], fc, mask, nzcv, kinds, te, handler)
         used = kinds[:n]
         info = {'firstcond': fc, 'mask': mask, 'nzcv': nzcv, 'n': n, 'kinds': used, 'has_else': bin(mask).count('1') > 1 and n >= 2,
-                'flags_inside': any(k in ('cmp', 'adds32') for k in used), 'exception_inside': any(k in ('svc', 'udf', 'ldr_abort') for k in used),
+                'flags_inside': any(k in ('cmp', 'adds32', 'msr') for k in used), 'exception_inside': any(k in ('svc', 'udf', 'ldr_abort') for k in used),
                 'thumb_handlers': te}
         for k in used:
             acc.cls('slot:' + k)
